@@ -11,7 +11,8 @@ VERUS_UNITS = {
 
 KANI_SER = ['ser_u8', 'ser_u16', 'ser_u32', 'ser_u64', 'ser_u128', 'ser_usize', 'ser_i8', 'ser_i16', 'ser_i32', 'ser_i64', 'ser_i128', 'ser_isize', 'ser_empty']
 KANI_HARNESSES = {h: 'little-endian primitive Serializable impl: bytes, size, exact inverse with symbolic tail (full domain)' for h in KANI_SER}
-KANI_HARNESSES.update({'from_u32': 'usize::from_u32 is lossless, unwrap_unchecked only on Ok (all u32)',
+KANI_HARNESSES.update({'num_bytes_labels': 'EdgeLabel::num_bytes: 1 for u8, the UTF-8 length for every char',
+                       'from_u32': 'usize::from_u32 is lossless, unwrap_unchecked only on Ok (all u32)',
                        'intpack_u24nu8': 'U24nU8 a/b/set_a/set_b and U24::try_from (all raw values)',
                        'utf8_decoder_two_chars': 'CharWithEndOffsetIterator::next on every ordered pair of chars: end offsets, scalar values, unwrap_unchecked on Some'})
 
@@ -39,13 +40,13 @@ PROPS = {
     'C05': dict(verus=['search_bw', 'iter_bw'], kani=[], bounded=True,
                 chain='FindOverlappingNoSuffixIterator::next refines nosuf_stream with persistent state (P); rest as C01',
                 assumed=[NFA_ASSUMED, DA_ASSUMED, AC_ASSUMED]),
-    'C06': dict(verus=['search_bw', 'iter_bw', 'ser'], kani=[], bounded=True,
+    'C06': dict(verus=['search_bw', 'iter_bw', 'ser'], kani=['num_bytes_labels'], bounded=True,
                 chain='every returned Match is mk_match(outputs[opos-1], end) (P); outputs[j] == (value_i, |p_i|) (B)',
                 assumed=[NFA_ASSUMED, DA_ASSUMED]),
     'C07': dict(verus=['search_bw', 'iter_bw', 'helper'], kani=['from_u32', 'utf8_decoder_two_chars'], bounded=True,
                 chain='every get_unchecked in bytewise search/iterators is an index obligation under da_safe/da_ranked (P); build establishes them (B)',
                 assumed=[NFA_ASSUMED, DA_ASSUMED]),
-    'C08': dict(verus=[], kani=[], bounded=True, chain='B only so far', assumed=[AC_ASSUMED]),
+    'C08': dict(verus=[], kani=['num_bytes_labels', 'utf8_decoder_two_chars'], bounded=True, chain='label byte lengths and decoder offsets (K); rest B so far', assumed=[AC_ASSUMED]),
     'C09': dict(verus=['ser'], kani=KANI_SER + ['intpack_u24nu8'], bounded=True,
                 chain='byte-wise: deserialize_unchecked(serialize(a) ++ t) == (a, t) and re-serialisation reproduces the bytes (P: ser, for every V satisfying the trait contract) <- primitive LE impls (K, 13 harnesses); char-wise automaton and CodeMapper: B',
                 assumed=['user-defined V: satisfies the Serializable trait contract (ser/deser inverse, fixed width < 256 MiB)', 'derived PartialEq is structural']),
